@@ -216,7 +216,7 @@ type writeReq struct {
 }
 
 func TestSyncReplicationDB(t *testing.T) {
-	vk.Check(t, 96, 1600, func(rt *rapid.T, c *vk.Case) {
+	vk.Check(t, 96, 1200, func(rt *rapid.T, c *vk.Case) {
 		root := vk.Dir()
 		defer os.RemoveAll(root)
 		acks := rapid.IntRange(1, 3).Draw(rt, "syncAcks")
